@@ -132,3 +132,13 @@ Lemma gen_sql_snapshot_stable bprog db0 cfg i k f v todo :
   qreachable gen_sqlite_methods (qinit bprog db0) cfg ->
   qths cfg i = QRead k f v todo -> exists c, lookup k (qdb cfg) = Some (c, v).
 Proof. rewrite gen_sqlite_methods_frozen. exact (sql_snapshot_stable bprog db0 cfg i k f v todo). Qed.
+
+Lemma gen_sql_tx_excludes_writes cfg cfg' j :
+  qstep gen_sqlite_methods cfg cfg' -> in_tx (qths cfg j) ->
+  qdb cfg' = qdb cfg \/
+  (exists k f img todo, qths cfg j = QWritten k f img todo /\ qdb cfg' = img).
+Proof. rewrite gen_sqlite_methods_frozen. exact (sql_tx_excludes_writes cfg cfg' j). Qed.
+
+Lemma gen_sql_reserved_unique bprog db0 cfg :
+  qreachable gen_sqlite_methods (qinit bprog db0) cfg -> reserved_unique cfg.
+Proof. rewrite gen_sqlite_methods_frozen. exact (sql_reserved_unique bprog db0 cfg). Qed.
